@@ -95,3 +95,98 @@ func c11AbandonedOpen(r *Run) {
 		}
 	}
 }
+
+// c11FailOneReset refuses exactly one write of a reset envelope (a transient transport error) and lets
+// everything else through.
+type c11FailOneReset struct {
+	*End
+	armed atomic.Bool
+}
+
+func (t *c11FailOneReset) Write(ctx context.Context, r *Rpc) error {
+	if r.Reset_ != nil && t.armed.CompareAndSwap(true, false) {
+		return errors.New("transient write error")
+	}
+	return t.End.Write(ctx, r)
+}
+
+// c11FailedReset: the caller abandons a stream (cancel) and the ONE reset the client writes for it is
+// lost to a transient transport error, while the connection stays usable. The server, never told, keeps
+// sending on the abandoned stream. Whatever arrives for it must not wedge the connection.
+func c11FailedReset(r *Run) {
+	if !r.Want("failedreset") {
+		return
+	}
+	for _, n := range []int{2, 3, 6} {
+		for _, serialise := range []bool{true, false} {
+			in := map[string]any{"handler_keeps_sending": n, "serialise": serialise}
+			scen := "failedreset"
+			r.Progress(scen, in)
+			hooks.Reset(true)
+			ce, se := NewPipe(4096, serialise, nil)
+			impl := &Impl{}
+			more := make(chan struct{})
+			impl.SetUnary(func(ctx context.Context, req []byte) ([]byte, error) { return unaryF(req), nil })
+			impl.SetStream(func(m string, ss grpc.ServerStream) error {
+				sendB(ss, srvMsg(0))
+				select {
+				case <-more:
+				case <-ss.Context().Done():
+					return nil
+				}
+				for i := 1; i <= n; i++ {
+					if sendB(ss, srvMsg(i)) != nil {
+						return nil
+					}
+				}
+				<-ss.Context().Done()
+				return nil
+			})
+			srv := goat.NewServer("srv")
+			srv.RegisterService(&echoDesc, impl)
+			served := make(chan error, 1)
+			go func() { served <- srv.Serve(context.Background(), se) }()
+			tr := &c11FailOneReset{End: ce}
+			cc := goat.NewClientConn(tr, "cli", "srv")
+			ctx, cancel := context.WithCancel(context.Background())
+			cs, err := cc.NewStream(ctx, descBidi, mBidi)
+			good := err == nil
+			if good {
+				_, err = recvB(cs)
+				good = err == nil
+			}
+			if !good {
+				r.Violate(scen+".setup", "schedule", "the stream could not be opened / read", in, fmt.Sprint(err), nil)
+			} else {
+				tr.armed.Store(true)
+				cancel()
+				// the stream has finished on the client side (its reset was attempted and refused)
+				hooks.WaitFor(func(e Event) bool { return e.Site == "cs.fin.done" }, hangTimeout)
+				close(more)
+				k := 0
+				hooks.WaitFor(func(e Event) bool {
+					if e.Site == "srv.stream.sent" {
+						k++
+					}
+					return k >= n+1
+				}, hangTimeout/5)
+				probe := fmt.Sprintf("probe-after-failed-reset-%d", n)
+				good = c11CheckProbe(r, scen, in, probe, c11Probe(cc, probe, c11ProbeDeadline), c11ProbeDeadline)
+			}
+			cancel()
+			r.Eval(fmt.Sprintf("%s/%d/%v", scen, n, serialise), true)
+			r.Count("c11.failedreset")
+			srv.Stop()
+			ce.FailRead(io.ErrClosedPipe)
+			se.FailRead(io.ErrClosedPipe)
+			ce.FailWrite(io.ErrClosedPipe)
+			se.FailWrite(io.ErrClosedPipe)
+			cc.Close()
+			within(hangTimeout, func() { <-served })
+			hooks.Reset(false)
+			if !good {
+				return
+			}
+		}
+	}
+}
